@@ -432,38 +432,63 @@ class Scheduler:
         return glob
 
 
-def run_schedule(sc, ov, thread_calls, switch_at, granularity="line"):
+EVENT_OF = {"compile.locked": "locked", "compile.newmap": "newmap", "compile.generated": "generated",
+            "compile.registered": "registered", "compile.swapped": "swapped", "compile.done": "done"}
+
+
+def run_schedule(sc, ov, thread_calls, switch_at, granularity="line", events=None, fault=None):
     """Run one call per thread under the schedule.  Returns per-thread obs
-    and the scheduling-point counts."""
+    and the scheduling-point counts.  `events` (a list) receives the build
+    events of Trace_Build.tla in the order they happen; `fault` = {thread, n}
+    raises InjectedFault at that thread's n-th build hook."""
     from ovld import _verif
 
     names = list(thread_calls)
     sched = Scheduler(names, switch_at, granularity)
     results = {}
     idmap = {}
+    nhooks = {n: 0 for n in names}
+
+    def log_hook(me, name):
+        ev = EVENT_OF.get(name)
+        if ev is None:
+            return
+        if events is not None:
+            events.append({"ev": ev, "t": me})
+        nhooks[me] += 1
+        if fault and fault["thread"] == me and nhooks[me] == fault["n"]:
+            raise InjectedFault(f"injected at {name}")
 
     def hook_point(name, fields):
         me = idmap.get(threading.get_ident())
         if me is not None:
+            log_hook(me, name)
             sched.point(me, name)
 
     def body(me, call):
         idmap[threading.get_ident()] = me
         sched.start(me)
+        if events is not None:
+            events.append({"ev": "start", "t": me})
         if granularity == "line":
             sys.settrace(sched.tracer_for(me))
         try:
             results[me] = sc.call(ov, call)
+        except InjectedFault as e:
+            results[me] = {"kind": "injected", "err": describe(e), "entered": [], "resolve": {"kind": "skip", "m": ""}, "ret": ""}
         except BaseException as e:  # noqa
             results[me] = {"kind": "internal", "err": describe(e), "entered": [], "resolve": {"kind": "skip", "m": ""}, "ret": ""}
         finally:
             sys.settrace(None)
+            if events is not None:
+                events.append({"ev": "end", "t": me, "obs": results.get(me)})
             sched.finish(me)
 
     def hook_mark(name, fields):
         me = idmap.get(threading.get_ident())
         if me is not None:
             sched.marks.append((me, sched.count[me], name))
+            log_hook(me, name)
 
     if granularity == "hook":
         _verif.install(point=hook_point)
